@@ -4,11 +4,11 @@ package main
 
 import (
 	"fmt"
-	"os"
 	"go/constant"
 	"go/token"
 	"go/types"
 	"math/big"
+	"os"
 	"sort"
 	"strings"
 
@@ -28,17 +28,17 @@ type Obligation struct {
 	Trace   string
 	Notes   []string
 	// results
-	Status string // unsat | sat | unknown | timeout | trivial
-	Solver string
-	Time   float64
-	Model  map[string]string
-	Query  string
-	Inputs map[string]Val // named input values for replay
-	replay *replayInfo
+	Status  string // unsat | sat | unknown | timeout | trivial
+	Solver  string
+	Time    float64
+	Model   map[string]string
+	Query   string
+	Inputs  map[string]Val // named input values for replay
+	replay  *replayInfo
 	batched bool
-	inVals []uint64
-	inOk   []bool
-	clause *Clause
+	inVals  []uint64
+	inOk    []bool
+	clause  *Clause
 }
 
 type loopInfo struct {
@@ -65,22 +65,22 @@ type verifCtx struct {
 }
 
 type Engine struct {
-	prog      *ssa.Program
-	fset      *token.FileSet
-	pkgs      map[string]*ssa.Package
-	cs        *ContractSet
-	obls      []*Obligation
-	cur       *verifCtx
-	work      []*State
-	maxPaths  int
-	maxSteps  int
-	maxInline int
-	verbose   bool
-	loopCache map[*ssa.Function]map[*ssa.BasicBlock]*loopInfo
-	inlineBan map[string]bool
+	prog       *ssa.Program
+	fset       *token.FileSet
+	pkgs       map[string]*ssa.Package
+	cs         *ContractSet
+	obls       []*Obligation
+	cur        *verifCtx
+	work       []*State
+	maxPaths   int
+	maxSteps   int
+	maxInline  int
+	verbose    bool
+	loopCache  map[*ssa.Function]map[*ssa.BasicBlock]*loopInfo
+	inlineBan  map[string]bool
 	propFilter string
-	stats     map[string]int
-	curClause *Clause
+	stats      map[string]int
+	curClause  *Clause
 }
 
 type pathEnd struct{ reason string }
@@ -856,6 +856,11 @@ func (e *Engine) unop(st *State, fr *Frame, x *ssa.UnOp) {
 	v := e.val(st, fr, x.X)
 	switch x.Op {
 	case token.MUL: // load
+		if g, ok := x.X.(*ssa.Global); ok && g.Name() == "Discard" && (g.Pkg.Pkg.Path() == "io" || g.Pkg.Pkg.Path() == "io/ioutil") {
+			// io.Discard: a writer whose output goes nowhere
+			fr.regs[x] = Val{x.Type(), []*Term{typeTag(ghostStreamType("io.discard")), discardRef}}
+			return
+		}
 		e.nilCheck(st, v, x)
 		pi := ptrInfo(v)
 		fr.regs[x] = st.loadAt(pi, x.Type())
@@ -1057,6 +1062,10 @@ func (e *Engine) convert(st *State, v Val, T types.Type) Val {
 			// string(bytes): opaque string with the same length, tied to content by an uninterpreted function
 			arr := st.cellArr(arrRoot(from.(*types.Slice).Elem())+"|[]", 2, BV(8))
 			s := App("str_of_bytes", StrSort, arr, v.sRef(), v.sOff(), v.sLen())
+			if src, ok := st.ghost["$strsrc/"+v.sRef().String()]; ok {
+				whole := And(src.L[0], Eq(src.L[2], v.sOff()), Eq(src.L[3], v.sLen()))
+				s = Ite(whole, App("cidstr", StrSort, src.L[1]), s)
+			}
 			st.assume(Eq(strLen(s), v.sLen()))
 			return Val{T, []*Term{s}}
 		}
@@ -1415,8 +1424,8 @@ func (e *Engine) index(st *State, fr *Frame, x *ssa.Index) {
 }
 
 func (e *Engine) makeSlice(st *State, fr *Frame, x *ssa.MakeSlice) {
-	ln := toWidth(e.val(st, fr, x.Len).t(), 64, true)
-	cp := toWidth(e.val(st, fr, x.Cap).t(), 64, true)
+	ln := toWidth(e.val(st, fr, x.Len).t(), 64, isSigned(x.Len.Type()))
+	cp := toWidth(e.val(st, fr, x.Cap).t(), 64, isSigned(x.Cap.Type()))
 	et := x.Type().Underlying().(*types.Slice).Elem()
 	esz := uint64(sizeofType(et))
 	if esz == 0 {
@@ -1518,7 +1527,9 @@ func (e *Engine) sliceOp(st *State, fr *Frame, x *ssa.Slice) {
 
 // ---------- maps ----------
 
-func mapRoot(T types.Type) string { return "map<" + typeName(T.Underlying().(*types.Map).Key()) + "," + typeName(T.Underlying().(*types.Map).Elem()) + ">" }
+func mapRoot(T types.Type) string {
+	return "map<" + typeName(T.Underlying().(*types.Map).Key()) + "," + typeName(T.Underlying().(*types.Map).Elem()) + ">"
+}
 
 // keyLeaves flattens a map key into canonical comparison leaves.
 func (e *Engine) keyLeaves(st *State, k Val) []*Term {
